@@ -293,6 +293,9 @@ fn c09_script(script: &[(bool, usize)], st: &mut Stats, strings: &[String], only
             // shorter than the plain stream by exactly the saved bytes
             st.bump("with-repeats");
             st.nontrivial += 1;
+            if st.samples.len() < 2 && script.len() == 4 && p == Placement::EvolvedRemovedNames {
+                st.sample(json!({"script": label, "placement": format!("{p:?}"), "stream": hex(&bytes), "decoded": want}));
+            }
             let _ = total;
         }
         // (4) ids never introduced decode to Err
@@ -373,7 +376,6 @@ pub fn run_c09(tier: &str, only: Option<String>) -> i32 {
         }
     });
     run.stats = stats;
-    run.stats.sample(json!({"script": "D2D2P2D1D2", "meaning": "ops D(zz) D(zz) P(zz) D(a) D(zz) in seven placements"}));
     run.rule = format!("all scripts of length <= {max_len} over 8 operations (deduplicated | plain write of one of 4 strings) x 7 placements (flat, tuple, Vec, v0 record, evolved record with an added field declared first, evolved record whose header carries removed/transient names equal to script strings, evolved inside evolved); oracle: decoded == written, every write encoded as first-occurrence-plain or vari(-id) in stream-processing order, no-repeat streams identical to the plain stream, unknown ids are Err; non-trivial = script with at least one repeat");
     run.bounds = json!({"script_length": max_len, "strings": ["", "a", "zz", "200 x é"]});
     run.finish()
